@@ -178,7 +178,7 @@ func ChildMain(spec string) {
 			for _, spec := range f[2:] {
 				ts := strings.SplitN(spec, ":", 2)
 				sz, _ := strconv.Atoi(ts[1])
-				msgs = append(msgs, storage.Message{DkgRoundID: "r", Event: f[1], Data: payload(ts[0], sz), SenderAddr: "child"})
+				msgs = append(msgs, withFields(storage.Message{Event: f[1], Data: payload(ts[0], sz)}, ts[0]))
 			}
 			if err := h.Send(msgs...); err != nil {
 				fmt.Println("error", strings.ReplaceAll(err.Error(), "\n", " "))
@@ -271,6 +271,59 @@ func payload(tag string, size int) []byte {
 	return b
 }
 
+// withFields fills the envelope fields of a message as a function of its tag:
+// recipient, sender, round id and signature are present in some entries and
+// empty (or absent) in others, so that whatever an entry carries can be told
+// from what its neighbours in the log carry.
+func withFields(m storage.Message, tag string) storage.Message {
+	h := 0
+	for _, c := range tag {
+		h = h*31 + int(c)
+	}
+	if h < 0 {
+		h = -h
+	}
+	if h%3 != 0 {
+		m.RecipientAddr = "to-" + tag
+	}
+	if h%5 != 0 {
+		m.SenderAddr = "from-" + tag
+	}
+	if h%7 != 0 {
+		m.DkgRoundID = "round-" + tag
+	}
+	switch h % 4 {
+	case 0:
+		m.Signature = nil
+	case 1:
+		m.Signature = []byte{}
+	default:
+		m.Signature = []byte("sig-" + tag)
+	}
+	return m
+}
+
+// contentDiff names the first envelope field of a read entry that is not what
+// was sent under its tag ("" if all are).
+func contentDiff(m storage.Message) string {
+	tg := tagOf(m)
+	if tg == "?" {
+		return ""
+	}
+	want := withFields(storage.Message{}, tg)
+	switch {
+	case m.RecipientAddr != want.RecipientAddr:
+		return fmt.Sprintf("recipient %q, sent %q", m.RecipientAddr, want.RecipientAddr)
+	case m.SenderAddr != want.SenderAddr:
+		return fmt.Sprintf("sender %q, sent %q", m.SenderAddr, want.SenderAddr)
+	case m.DkgRoundID != want.DkgRoundID:
+		return fmt.Sprintf("round id %q, sent %q", m.DkgRoundID, want.DkgRoundID)
+	case !bytes.Equal(m.Signature, want.Signature):
+		return fmt.Sprintf("signature %q, sent %q", m.Signature, want.Signature)
+	}
+	return ""
+}
+
 func tagOf(m storage.Message) string {
 	if !bytes.HasPrefix(m.Data, tagPrefix) {
 		return "?"
@@ -308,7 +361,7 @@ func (w *world) runTask(t *task) {
 		case opSend:
 			msgs := make([]storage.Message, len(o.sizes))
 			for i, sz := range o.sizes {
-				msgs[i] = storage.Message{DkgRoundID: "r", Event: fmt.Sprintf("w%d-%d", t.id, oi), Data: payload(o.tags[i], sz), SenderAddr: fmt.Sprintf("w%d", t.id)}
+				msgs[i] = withFields(storage.Message{Event: fmt.Sprintf("w%d-%d", t.id, oi), Data: payload(o.tags[i], sz)}, o.tags[i])
 			}
 			t.msgCall, t.msgRet = nil, nil
 			var err error
@@ -396,6 +449,10 @@ func (w *world) checkRead(ms []storage.Message, from uint64, who string) {
 			w.fail("offset-not-position", fmt.Sprintf("%s: GetMessages(%d) returned at index %d an entry carrying offset %d (tag %s)", who, from, i, m.Offset, tagOf(m)))
 			return
 		}
+		if d := contentDiff(m); d != "" {
+			w.fail("entry-read-back-differs-from-what-was-sent", fmt.Sprintf("%s: GetMessages(%d) returned at index %d the entry with tag %s carrying %s", who, from, i, tagOf(m), d))
+			return
+		}
 	}
 }
 
@@ -418,6 +475,10 @@ func (w *world) fullRead(final bool) {
 	for i, m := range ms {
 		tg := tagOf(m)
 		tags = append(tags, tg)
+		if d := contentDiff(m); d != "" {
+			w.fail("entry-read-back-differs-from-what-was-sent", fmt.Sprintf("a fresh handle reads at position %d the entry with tag %s carrying %s", i, tg, d))
+			return
+		}
 		if m.Offset != uint64(i) {
 			w.fail("offset-not-position", fmt.Sprintf("entry at position %d carries offset %d (tag %s, %d bytes)", i, m.Offset, tg, len(m.Data)))
 			return
